@@ -55,6 +55,7 @@ type vfSched struct {
 	used     []int // choices actually taken (with >=2 options)
 	decisions int
 	multi    int // decisions with >= 2 options
+	stalls   int // decisions at which simulated time was let pass while tasks were parked
 	trace    []string
 	finished chan *vfTask
 }
@@ -220,8 +221,19 @@ func (s *vfSched) runGroup(names []string, fns []func()) {
 			if c < 0 {
 				c = -c
 			}
-			idx = c % n
-			s.used = append(s.used, idx)
+			if c >= 100 {
+				// a stalled node: simulated time passes (2.5 s) while every task of the group stays where it is
+				s.mu.Unlock()
+				time.Sleep(2500 * time.Millisecond)
+				s.mu.Lock()
+				s.stalls++
+			}
+			idx = (c % 100) % n
+			if c >= 100 {
+				s.used = append(s.used, idx+100)
+			} else {
+				s.used = append(s.used, idx)
+			}
 			s.multi++
 		}
 		s.decisions++
